@@ -3,5 +3,5 @@
 f="$1"; n="$2"
 head -n $((n-1)) "$f" > /tmp/coqdbg_$$.v
 echo "Show." >> /tmp/coqdbg_$$.v
-cd /verif/coq && timeout 120 coqtop -Q theories PD -w -notation-overridden -batch -l /tmp/coqdbg_$$.v 2>&1 | tail -${3:-40}
+cd ${COQDIR:-/verif/coq} && timeout 120 coqtop -Q theories PD -w -notation-overridden -batch -l /tmp/coqdbg_$$.v 2>&1 | tail -${3:-40}
 rm -f /tmp/coqdbg_$$.v
